@@ -327,7 +327,10 @@ func (e *clEngine) exportImport() {
 			continue
 		}
 		if d == "61:missing" && staleOnly {
+			// raw-store only (Props/C19CL.cl_prune_unobservable: no message or query reads them): the running chain keeps the six uptime-
+			// accumulator records of a position after the position is deleted, the export lists the records of live positions only
 			o.Count("exportimport.stale-uptime-records-of-deleted-positions-dropped")
+			twLoss(o, "cl:export-import:store-differs:dead-uptime-records-pruned", fmt.Sprintf("%d uptime-accumulator position records of deleted positions in the store before ExportGenesis, none after InitGenesis, e.g. %v", n, sample))
 			continue
 		}
 		if strings.HasPrefix(d, "0e:") { // FullRangeLiquidityPrefix: the running total is rebuilt as the sum over full-range positions
@@ -341,6 +344,17 @@ func (e *clEngine) exportImport() {
 	}
 	o.Emit("clp nextid", fmt.Sprintf("ok %d", k.GetNextPositionId(e.ctx())), true)
 	o.Emit("clp dump", e.dumpImpl(), true)
+	// F41: the full-range liquidity record as the imported node reports it (the model: sum over the full-range positions; the record
+	// does not exist when InitGenesis met no full-range position, which the model writes as 0)
+	if fr, err := k.GetFullRangeLiquidityInPool(e.ctx(), e.poolId); err == nil {
+		o.Emit("clp fullrange-imported", "ok "+fr.BigInt().String(), true)
+		o.Count("exportimport.fullrange-record.present")
+	} else if !e.ctx().KVStore(e.h.App.GetKey(cltypes.StoreKey)).Has(cltypes.KeyFullRangeLiquidityPrefix(e.poolId)) {
+		o.Emit("clp fullrange-imported", "ok 0", true)
+		o.Count("exportimport.fullrange-record.absent")
+	} else {
+		o.Emit("clp fullrange-imported", "err", true)
+	}
 }
 
 func (e *clEngine) ownerName(addr string) string {
